@@ -376,14 +376,15 @@ class Verifier(Dyn):
         ground_vals = {}
         for k, terms in ob.ground.items():
             ground_vals[k] = [m.eval(t, model_completion=True) for t in terms]
+        self._model = m
         for name, t in self.inputs.items():
             try:
                 if z3.is_array(t):
                     dom = str(t.sort().domain())
-                    entries = {}
+                    entries = []
                     for gv in ground_vals.get(dom, []):
-                        entries[self.pyval(gv)] = self.pyval(m.eval(t[gv], model_completion=True))
-                    out[name] = entries
+                        entries.append([self.pyval(gv), self.pyval(m.eval(t[gv], model_completion=True))])
+                    out[name] = {"$map": entries}
                 else:
                     out[name] = self.pyval(m.eval(t, model_completion=True))
             except Exception as e:  # pragma: no cover
@@ -396,7 +397,61 @@ class Verifier(Dyn):
         if z3.is_false(v): return False
         if z3.is_string_value(v): return v.as_string()
         if z3.is_rational_value(v): return float(v.as_fraction())
-        return str(v)
+        m = getattr(self, "_model", None)
+        try:
+            if v.sort() == ObjSort and m is not None:
+                return self.objval(v, m)
+            if v.sort().kind() == z3.Z3_DATATYPE_SORT and z3.is_app(v) and v.decl().kind() == z3.Z3_OP_DT_CONSTRUCTOR:
+                return {"$rec": v.decl().name(), "fields": [self.pyval(c) for c in v.children()]}
+        except Exception:
+            pass
+        return {"$term": str(v)}
+
+    def objval(self, o, m):
+        """Concrete reading of an Obj model value through the dynamic-typing functions (kind_of / unbox* / num_of)."""
+        from .dyn import kind_of, unbox_fn, num_of
+        ev = lambda t: m.eval(t, model_completion=True)
+        if z3.is_true(ev(o == PyNone)):
+            return None
+        k = ev(kind_of(o))
+        k = k.as_long() if z3.is_int_value(k) else 0
+        d = {"$obj": str(ev(o)), "kind": k}
+        try:
+            if k in (1, 2, 3):
+                d["value"] = self.pyval(ev(unbox_fn(k)[0](o)))
+            elif k == 4:
+                d["value"] = self.pyval(ev(num_of(o)))
+            for cname in sorted(self.cls_done):
+                if z3.is_true(ev(self.class_pred(cname)(o))):
+                    d.setdefault("classes", []).append(cname)
+            depth = getattr(self, "_objdepth", 0)
+            if depth < 3:
+                self._objdepth = depth + 1
+                try:
+                    names = {dd.name() for dd in m.decls()}
+                    for a, (ty, mutable) in self.reg.attrs.items():
+                        if not mutable and ("attr_" + a) in names and not isinstance(ty, (TSet, TList, TDict)):
+                            d.setdefault("attrs", {})[a] = self.pyval(ev(z3.Function("attr_" + a, ObjSort, ty.sort())(o)))
+                finally:
+                    self._objdepth = depth
+        except Exception:
+            pass
+        return d
+
+    def replay_context(self):
+        """Everything the native replay needs to rebuild inputs and evaluate clause texts: parameter types, entity and
+        record tables, specification functions."""
+        c = self.contract
+        ents = {}
+        for cls, fields in self.reg.entities.items():
+            ents[cls] = {"where": list(self.reg.entity_methods[cls]), "fields": {f: repr(t) for f, t in fields.items()}}
+        return {"types": {p: repr(t) for p, t in c.types.items()}, "ghost_params": {g: repr(t) for g, t in c.ghost_params.items()},
+                "returns": repr(c.returns) if c.returns is not None else None, "entities": ents,
+                "records": {n: [[f, repr(t)] for f, t in r.fields] for n, r in self.reg.records.items()},
+                "specs": {n: [ps, body] for n, (ps, body) in self.reg.specs.items()},
+                "kind": self.fi.kind, "cls": self.fi.cls, "module": self.fi.module, "name": self.fi.node.name,
+                "params": [a.arg for a in self.fi.node.args.posonlyargs + self.fi.node.args.args] + [a.arg for a in self.fi.node.args.kwonlyargs],
+                "requires": list(c.requires)}
 
     def run(self, timeout_ms=10000):
         """Explore and discharge; returns a JSON-able report for this function."""
@@ -419,6 +474,8 @@ class Verifier(Dyn):
             rep["obligations"].append({"name": ob.name, "kind": ob.kind, "level": ob.level, "result": ob.result, "backend": ob.backend,
                                        "time_s": round(ob.time, 4), "clause": ob.info.get("clause"), "tags": ob.info.get("tags"), "model": ob.model,
                                        "reason": getattr(ob, "reason", ""), "goal": str(ob.goal)[:300]})
+        if any(o["result"] == "failed" for o in rep["obligations"]):
+            rep["replay_ctx"] = self.replay_context()
         rep["paths"] = self.paths
         rep["leftover_scripts"] = getattr(self, "leftover", [])
         rep["outcomes"] = self.outcomes
